@@ -108,6 +108,8 @@ G = "cartgraph/graph.py"
 NODE = "cartgraph/node.py"
 R = "plugins/runner.py"
 MUTANTS = [
+    ("rerun-scope-of-deciding-worker", "cartgraph/node.py", "            self.started_worker = old_started_worker or worker", "            self.started_worker = worker", "sc"),
+    ("rerun-marker-not-restored", "cartgraph/node.py", "            test_statuses = [r[\"status\"].lower() for r in self.shared_filtered_results]\n            self.started_worker = old_started_worker\n", "            test_statuses = [r[\"status\"].lower() for r in self.shared_filtered_results]\n", "sc"),
     ("reservation-never-removed", "cartgraph/graph.py", "        try:\n            status = await self.runner.run_test_node(pre_node)\n        finally:\n            # the second step will immediately add its own entry before any other worker is scheduled\n            test_node.results.remove(pending_result)",
      "        status = await self.runner.run_test_node(pre_node)", "T.A2b"),
     ("await-before-placeholder", R, "        node_result = {\"name\": name, \"status\": \"UNKNOWN\"}\n        node.results += [node_result]\n        await self.run_test_task(node)",
